@@ -1489,6 +1489,12 @@ protected:
 
     virtual void internal_pop(buffer_operation *op) {
         __TBB_ASSERT(op->elem, nullptr);
+        // Items are handed out from the back, the reservation holds the front: with a single item
+        // in the buffer they are the same item, which must stay with the holder of the reservation.
+        if (this->my_reserved && this->my_tail - 1 == this->my_head) {
+            op->status.store(FAILED, std::memory_order_release);
+            return;
+        }
 #if __TBB_PREVIEW_FLOW_GRAPH_TRY_PUT_AND_WAIT
         bool pop_result = op->metainfo ? this->pop_back(*(op->elem), *(op->metainfo))
                                        : this->pop_back(*(op->elem));
